@@ -276,7 +276,13 @@ class FastNetNeuronCommunicator(FastSerialCommunicator):
             return
 
         hw_states = {}
-        _, raw_switch_data = msg.split(',')
+        byte_count, raw_switch_data = msg.split(',')
+
+        if (len(byte_count) != 2 or not all(c in '0123456789ABCDEFabcdef' for c in byte_count + raw_switch_data) or
+                len(raw_switch_data) != int(byte_count, 16) * 2):
+            # truncated or garbled report: acting on it would shift every following switch
+            self.log.warning("Ignoring malformed SA: message (data does not match the byte count): %s", msg)
+            return
 
         for offset, byte in enumerate(bytearray.fromhex(raw_switch_data)):
             for i in range(8):
